@@ -185,6 +185,18 @@ MCSpec == MCInit /\ [][MCNext]_mvars
 (***************************************************************************)
 (* Properties                                                              *)
 (***************************************************************************)
+(***************************************************************************)
+(* Refinement: every step of the concrete builder pair is a step (or a     *)
+(* stutter) of the counter abstraction BuilderInd, whose invariant IndInv  *)
+(* is proved inductive for call sequences of ANY length with Apalache.     *)
+(***************************************************************************)
+Abs == INSTANCE BuilderInd WITH pn <- PLen(cs.P), pp <- cs.P.pending, vn <- VLen(cs.V), vp <- cs.V.pending,
+                                phase <- IF ph.P = "cb" THEN 2 ELSE 1,
+                                n1 <- IF ph.P = "cb" THEN mid.P.ref.n1 ELSE 0
+AbsVars == << PLen(cs.P), cs.P.pending, VLen(cs.V), cs.V.pending, ph.P >>
+RefinesAbstraction == hist.vskip \/ Abs!IndInv
+AbsStep == [][hist'.vskip \/ Abs!Next]_AbsVars
+
 AllOps == hist.ops \o hist.cb
 
 \* Rich programs: exactly the behaviours with a deviation have an unsatisfied constraint or gate
@@ -224,7 +236,7 @@ PairsShareGate ==
         /\ ((k - 1 <= Len(hist.ops)) = (k <= Len(hist.ops))))
        => (cur[1] = "R" /\ cur[2] = prev[2])
 
-MCInv == /\ MirrorLock /\ HandlesAgree /\ PendingClosed /\ NoCrossPhasePair /\ ClosedAtSwitch
+MCInv == /\ RefinesAbstraction /\ MirrorLock /\ HandlesAgree /\ PendingClosed /\ NoCrossPhasePair /\ ClosedAtSwitch
          /\ MissingAssignmentIsError /\ PairsShareGate /\ DeviationIffUnsatisfied
 
 (***************************************************************************)
